@@ -28,7 +28,10 @@ RULE = (
     "representable + cls(*args) rebuilds => same class and equal (JSON-normalised) args; (d) otherwise a stand-in "
     "(same-named synthetic class, reconstructible base class, or generic/wrapper whose text names the class) with "
     "un-encodable args as str; (e) JSON: cause, context-unless-suppressed and the suppress flag correspond node by node, "
-    "edges back to the current path are None. Non-trivial: >=2 nodes with a non-resolvable class or a non-encodable "
+    "edges back to the current path are None. A second part, 'histories', stores results and loads them 1-8 times while the "
+    "modules defining the exception classes are unloaded / imported / re-defined in between (module names unique per "
+    "case): every load is judged against what is importable at that moment (the current class object, else a stand-in). "
+    "Non-trivial: >=2 nodes with a non-resolvable class or a non-encodable "
     "arg, or a cycle; distinct = canonical JSON of the recipe."
 )
 ASSUMPTIONS = [
@@ -299,3 +302,141 @@ def run_case(case: Dict[str, Any]) -> Outcome:
 
 SELFTEST_CASES = [{"nodes": [{"cls": "TwoArgs", "args": [["json", 1], ["special", "lock"]], "cause": 1, "ctx": 0, "suppress": False},
                              {"cls": "Loc", "args": [["special", "badrepr"]], "cause": 0, "ctx": None, "suppress": True}]}]
+
+
+# ---------------------------------------------------------------- histories: store / load interleaved with module (un)loading
+#
+# "The loaded error is an exception of the original class WHENEVER that class is importable": the verdict belongs to the
+# moment of loading.  A result stored by a worker may be loaded while the application module is not imported (stand-in),
+# and again after it has been imported or reloaded (the real, current class).  Module names are unique per case.
+
+import types as _types
+
+_HCOUNT = [0]
+
+
+def _define_app_module(name: str) -> None:
+    m = _types.ModuleType(name)
+    AppError = type("AppError", (Exception,), {"__module__": name})
+    Inner = type("Inner", (ValueError,), {"__module__": name, "__qualname__": "Outer.Inner"})
+    Outer = type("Outer", (), {"__module__": name, "Inner": Inner})
+    Root = type("Root", (BaseException,), {"__module__": name})
+    m.AppError, m.Outer, m.Root = AppError, Outer, Root  # type: ignore[attr-defined]
+    sys.modules[name] = m
+
+
+def history_cases() -> Any:
+    cls = st.sampled_from(["AppError", "Outer.Inner", "Root"])
+    args = st.lists(st.one_of(st.integers(-5, 5), st.text(alphabet="abc", max_size=3), st.none()), max_size=2)
+    dump = st.fixed_dictionaries({"op": st.just("dump"), "m": st.integers(0, 1), "cls": cls, "args": args,
+                                  "cause": st.one_of(st.none(), st.tuples(st.integers(0, 1), cls).map(list))})
+    load = st.fixed_dictionaries({"op": st.just("load"), "k": st.integers(0, 7), "kind": st.sampled_from(["json", "dict"])})
+    other = st.fixed_dictionaries({"op": st.sampled_from(["unload", "define", "define"]), "m": st.integers(0, 1)})
+    return st.fixed_dictionaries({"ops": st.lists(st.one_of(dump, load, load, other), min_size=3, max_size=12)})
+
+
+def _get(name: str, qual: str) -> Any:
+    obj: Any = sys.modules.get(name)
+    if obj is None:
+        return None
+    for part in qual.split("."):
+        obj = getattr(obj, part, None)
+        if obj is None:
+            return None
+    return obj
+
+
+def run_history(case: Dict[str, Any]) -> Outcome:
+    out = Outcome()
+    out.clauses_checked = ["C19.a", "C19.c", "C19.d", "C19.e"]
+    _HCOUNT[0] += 1
+    names = [f"vt_c19h{_HCOUNT[0]}_{i}" for i in range(2)]
+    blobs: List[Any] = []
+    loads = changed = 0
+    try:
+        for n in names:
+            _define_app_module(n)
+        for op in case["ops"]:
+            if op["op"] == "unload":
+                sys.modules.pop(names[op["m"]], None)
+                changed += 1 if blobs else 0
+            elif op["op"] == "define":
+                _define_app_module(names[op["m"]])
+                changed += 1 if blobs else 0
+            elif op["op"] == "dump":
+                cls = _get(names[op["m"]], op["cls"])
+                if cls is None:
+                    continue   # the worker can only raise classes of modules it has imported
+                exc = cls(*op["args"])
+                spec = {"mod": names[op["m"]], "cls": op["cls"], "args": tuple(op["args"]), "cause": None}
+                if op["cause"]:
+                    ccls = _get(names[op["cause"][0]], op["cause"][1])
+                    if ccls is not None:
+                        exc.__cause__ = ccls("because")
+                        spec["cause"] = {"mod": names[op["cause"][0]], "cls": op["cause"][1], "args": ("because",), "cause": None}
+                try:
+                    r = TaskiqResult(is_err=True, return_value=None, execution_time=0.1, error=exc)
+                    blobs.append((spec, r.model_dump_json(), r.model_dump()))
+                except BaseException as ex:  # noqa: BLE001
+                    out.add("C19.a", f"[history] dumping {op['cls']} raised {type(ex).__name__}: {short(ex, 200)}")
+            elif blobs:
+                spec, js, dct = blobs[op["k"] % len(blobs)]
+                try:
+                    l = TaskiqResult.model_validate_json(js) if op["kind"] == "json" else TaskiqResult.model_validate(dct)
+                except BaseException as ex:  # noqa: BLE001
+                    out.add("C19.a", f"[history/{op['kind']}] loading raised {type(ex).__name__}: {short(ex, 200)}")
+                    break
+                loads += 1
+                node, loaded, path = spec, l.error, "root"
+                while node is not None:
+                    now = _get(node["mod"], node["cls"])
+                    short_mod = node["mod"].split("_")[-1]
+                    if not isinstance(loaded, BaseException):
+                        out.add("C19.b", f"[history] {path}: loaded {type(loaded).__name__}")
+                        break
+                    if now is not None:
+                        if type(loaded) is not now:
+                            out.add("C19.c", f"[history/{op['kind']}] {path}: class {node['cls']} of module #{short_mod} is importable now, but the loaded error is "
+                                             f"{type(loaded).__module__}.{type(loaded).__qualname__} (id differs from the current class: stale or stand-in)")
+                        elif loaded.args != node["args"]:
+                            out.add("C19.c", f"[history] {path}: args {loaded.args!r} != {node['args']!r}")
+                    else:
+                        if type(loaded).__name__ != node["cls"] or not isinstance(loaded, Exception) or loaded.args != node["args"]:
+                            out.add("C19.d", f"[history/{op['kind']}] {path}: module #{short_mod} is not loaded now, expected a stand-in named {node['cls']!r} with equal "
+                                             f"args, got {type(loaded).__module__}.{type(loaded).__name__}{loaded.args!r}")
+                    if node["cause"] is not None and loaded.__cause__ is None:
+                        out.add("C19.e", f"[history] {path}: cause lost")
+                        break
+                    node, loaded, path = node["cause"], loaded.__cause__, path + "/cause"
+                if out.violations:
+                    break
+        out.nontrivial = bool(loads >= 2 and changed >= 1)
+        out.classes = ["history"] + (["module_state_changed_between_loads"] if changed and loads else [])
+        out.trace = {"loads": loads, "module_changes": changed, "blobs": len(blobs)}
+    finally:
+        for n in names:
+            sys.modules.pop(n, None)
+    return out
+
+
+_parts_single = parts
+_run_single = run_case
+
+
+def parts(tier: str) -> List[Part]:  # type: ignore[no-redef]
+    ps = _parts_single(tier)
+    if tier == "thorough":
+        ps.append(Part("histories", "given", shards=4, examples=8000, strategy=history_cases, soft_deadline_s=1200))
+    else:
+        ps.append(Part("histories", "given", shards=2, examples=1200, strategy=history_cases, soft_deadline_s=100))
+    return ps
+
+
+def run_case(case: Dict[str, Any]) -> Outcome:  # type: ignore[no-redef]
+    if "ops" in case:
+        return run_history(case)
+    return _run_single(case)
+
+
+SELFTEST_CASES.append({"ops": [{"op": "dump", "m": 0, "cls": "Outer.Inner", "args": [1], "cause": [1, "AppError"]}, {"op": "unload", "m": 0},
+                               {"op": "load", "k": 0, "kind": "json"}, {"op": "define", "m": 0}, {"op": "load", "k": 0, "kind": "dict"}]})
